@@ -51,3 +51,82 @@ class K19b(Harness):
 
     def signature(self, values, p, detail):
         return _sig(values, p, detail)
+
+
+# ---------------------------------------------------------------------------------------------------------------------
+import re
+import time
+
+from sx import symre
+
+
+def module_patterns():
+    """every regular expression compiled at module level in the shipped code (what the rules apply to identifier text)"""
+    import vsg.rules  # noqa: F401
+
+    out = []
+    for mname in sorted(m for m in sys.modules if m == "vsg" or m.startswith("vsg.")):
+        mod = sys.modules[mname]
+        for k, v in sorted(vars(mod).items(), key=lambda kv: kv[0]):
+            if isinstance(v, re.Pattern):
+                ident = "%s.%s" % (mname, k)
+                if all(ident != x[0] for x in out) and all(v is not x[1] for x in out):
+                    out.append((ident, v))
+    return out
+
+
+def pump_time(pattern, prefix, w, limit=1.0):
+    """seconds re.Pattern.fullmatch needs on prefix + w*k + NUL for growing k (stops past `limit`)"""
+    worst = 0.0
+    for k in range(8, 27):
+        s = prefix + w * k + "\x00"
+        t0 = time.perf_counter()
+        pattern.fullmatch(s)
+        worst = max(worst, time.perf_counter() - t0)
+        if worst > limit:
+            break
+    return worst
+
+
+@register
+class K19c(Harness):
+    name = "K19c"
+    prop = "C19"
+    title = "no regular expression compiled by the shipped code backtracks exponentially: for every unbounded repeat (body)*, no string w is consumed by body* in two different ways while prefix+w+w is still matched"
+    functions = ("vsg.rules.case_utils", "vsg.vhdlFile.classify.bit_string_literal")
+    stubs = ("the repeat is encoded by a path-counting semantics of the regular expression (sx.symre._count); replay times the real re.Pattern.fullmatch on prefix + w*k + NUL, k <= 26",)
+    bounds = "every module-level re.Pattern of vsg.*; every unbounded repeat in it; |prefix| <= 2, |w| <= 3 over printable ASCII"
+    outside = "regular expressions supplied by the user's configuration (case: regex, prefix/suffix exceptions, pragma patterns); polynomial (non-exponential) ambiguity; longer pump strings"
+    exception_props = ("C19",)
+
+    def params(self, tier):
+        out = []
+        for ident, pat in module_patterns():
+            for j in range(len(symre.unbounded_repeats(pat))):
+                for lp in (0, 1, 2):
+                    for lw in (1, 2, 3):
+                        out.append({"pattern": ident, "repeat": j, "lp": lp, "lw": lw})
+        return out
+
+    def run(self, eng, p):
+        pat = dict(module_patterns())[p["pattern"]]
+        body = symre.unbounded_repeats(pat)[p["repeat"]]
+        alpha = "".join(chr(c) for c in range(32, 127))
+        prefix = eng.str("prefix", p["lp"], alphabet=alpha) if p["lp"] else ""
+        w = eng.str("w", p["lw"], alphabet=alpha)
+        ways = symre.ways_star(body, w, pat.flags)
+        ambiguous = (ways >= 2) if not isinstance(ways, int) else ways >= 2
+        in_context = symre.formula(pat, "fullmatch", prefix + w + w)
+        if isinstance(eng, core.ConcreteEngine):
+            # replay: the real matcher decides
+            if not (core.f_of(ambiguous) is True and core.f_of(in_context) is True):
+                return True
+            return [("terminates_quickly@%s" % p["pattern"], pump_time(pat, prefix, w) <= 1.0)]
+        return [("terminates_quickly@%s" % p["pattern"], core.Not(core.And(ambiguous, in_context)))]
+
+    def describe(self, values, p):
+        g = lambda name, n: "".join(chr(values.get("%s[%d]" % (name, i), 32)) for i in range(n))
+        return {"pattern": p["pattern"], "prefix": g("prefix", p["lp"]), "w": g("w", p["lw"]), "pumped": "prefix + w*k + NUL"}
+
+    def signature(self, values, p, detail):
+        return _sig(values, p, detail)
